@@ -6,10 +6,13 @@ vars == <<stage, cfg>>
 FhSets == { SetToSortSeq(S, <) : S \in { T \in SUBSET (1..MaxFh) : T # {} /\ Cardinality(T) <= MaxFhLen } }
 BlankS == [kind |-> "", n |-> 0, fh |-> <<1>>, wl |-> 0, sl |-> 1, iw |-> 0, sww |-> TRUE,
            cuts |-> <<0>>, ts |-> <<"none", 0>>, tr |-> <<"none", 0>>]
-Init == stage = "kind" /\ cfg = [split |-> BlankS, strategy |-> "refit", nx |-> 0]
+Init == stage = "kind" /\ cfg = [split |-> BlankS, strategy |-> "refit", nx |-> 0, prefit |-> FALSE]
 PickKind == /\ stage = "kind"
-            /\ \E k \in {"sliding", "expanding", "single"}, s \in {"refit", "update"}, x \in 0..1 :
-                   cfg' = [cfg EXCEPT !.split.kind = k, !.strategy = s, !.nx = x]
+            \* prefit: the forecaster object handed to evaluate has been fitted before (on the whole series).
+            \* ExpectedEval does not look at it: the first fold always fits, whatever the object went through
+            /\ \E k \in {"sliding", "expanding", "single"}, s \in {"refit", "update"}, x \in 0..1, p \in BOOLEAN :
+                   /\ (p => s = "update")
+                   /\ cfg' = [cfg EXCEPT !.split.kind = k, !.strategy = s, !.nx = x, !.prefit = p]
             /\ stage' = "n"
 PickN == /\ stage = "n" /\ \E n \in 2..MaxN, f \in FhSets : cfg' = [cfg EXCEPT !.split.n = n, !.split.fh = f]
          /\ stage' = "win"
